@@ -72,8 +72,15 @@ def gen_timer(r, big):
 STG_OK = ["s0", "s200", "s1000", "s3000", "e0", "e100", "e1000", "e4000", "y"]
 
 
-def stages(r, n, never=False):
+def stages(r, n, never=False, bounded=False):
+    """bounded=True (block_timeout): a stage that wakes from INSIDE poll ('y') is only put before any stage that
+    is woken from another thread.  block_timeout's waker does a blocking send into a sync_channel(1): a wake from
+    inside poll while a token is already buffered blocks the polling thread forever (finding
+    C42-block-timeout-self-wake-deadlock); such a case would hang the check."""
     st = [r.choice(STG_OK) for _ in range(n)]
+    if bounded:
+        ys = [x for x in st if x == "y"]
+        st = ys + [x for x in st if x != "y"]
     if never:
         st.append("x")
     return "+".join(st) if st else "-"
@@ -84,11 +91,11 @@ def gen_bt(r):
     v = r.randint(-1000, 1000)
     if k < 0.55:
         # completes long before the (large) duration
-        return "bt %d %d 0 %s" % (r.choice([2000000, 3000000, 5000000]), v, stages(r, r.randint(0, 4)))
+        return "bt %d %d 0 %s" % (r.choice([2000000, 3000000, 5000000]), v, stages(r, r.randint(0, 4), bounded=True))
     if k < 0.90:
         # never completes: Timeout, not before the duration
         return "bt %d %d 0 %s" % (r.choice([0, 1, 100, 1000, 3000, 8000, 15000]), v,
-                                  stages(r, r.randint(0, 2), never=True))
+                                  stages(r, r.randint(0, 2), never=True, bounded=True))
     if k < 0.95:
         # completes only long after the duration
         return "bt %d %d 0 e400000" % (r.choice([500, 2000, 5000]), v)
@@ -134,7 +141,7 @@ def corpus():
         "t n300 p0 w1500 d0 s",                         # drop after the wake
         "t n1500 p0 w1400 d0 s w500",                   # drop near the deadline (window)
         "t n1000 p0 n1000 p1 n1000 p2 d1 s",
-        "bt 3000000 7 0 e1000+s500+y",
+        "bt 3000000 7 0 y+e1000+s500",
         "bt 3000000 7 0 -",
         "bt 2000 7 0 x",
         "bt 0 7 0 x",
